@@ -537,7 +537,8 @@ func (ee *explainer) defineClasses(classType string, class classdef.Table) {
 		if i == 0 {
 			continue
 		}
-		fmt.Fprintf(ee.w, "%s :c%d: = ", classType, i)
+		// the leading space separates the keyword from a preceding lookup flag
+		fmt.Fprintf(ee.w, " %s :c%d: = ", classType, i)
 		ee.writeGlyphSet(gg)
 		ee.w.WriteString("\n\t")
 	}
